@@ -271,9 +271,76 @@ def r4_main(ctx, chk, rule="C16.4"):
                       construct="main save condition")
 
 
+def r7_no_glued_chunks(ctx, chk, rule="C16.1"):
+    """A value written piece by piece: if a loop writes only `sep.join(<piece>)` per iteration, the last element of one piece
+    and the first of the next are written without the separator between them - the line no longer reads back to the value
+    (or does not read back at all) as soon as there are two pieces."""
+    f = ctx.func(SAVE)
+    n = 0
+    for g in ctx.cg.reachable([f]):
+        if g.mod.name != "conditionalrewards.py":
+            continue
+        for loop in walk_no_nested_defs(g.node):
+            if not isinstance(loop, (ast.For, ast.While)):
+                continue
+            writes = [c for st in loop.body for c in ast.walk(st) if isinstance(c, ast.Call) and isinstance(c.func, ast.Attribute) and c.func.attr in ("write", "writelines")]
+            joins = [w for w in writes if w.args and isinstance(w.args[0], ast.Call) and isinstance(w.args[0].func, ast.Attribute) and w.args[0].func.attr == "join"
+                     and isinstance(w.args[0].func.value, ast.Constant) and isinstance(w.args[0].func.value.value, str) and w.args[0].func.value.value != ""]
+            if joins and len(writes) == len(joins):
+                n += 1
+                chk.violation(rule, g.where(loop), "`%s` writes one `%r.join(...)` per piece and nothing between the pieces: the elements on either side of a piece boundary run together, "
+                              "so a value that needs more than one piece is not written as itself" % (norm_stmt(loop), joins[0].args[0].func.value.value),
+                              expected="the value formatted in one piece (f\"{value}\"), or the separator written between pieces", found=src(joins[0])[:100],
+                              construct="%s glued pieces" % g.short)
+    return n
+
+
+CWD_CHANGERS = ("os.chdir", "chdir", "os.fchdir", "os.chroot")
+
+
+def r6_same_file(ctx, chk, rule="C16.5"):
+    """The file that is read is the file the command line names: nothing executed before the read may change how a relative
+    path is resolved (working directory), and the reader / main do not rewrite the name."""
+    f = ctx.func("conditionalrewards.py::main")
+    cfg = ctx.cfg(f)
+    reads = [c for c in walk_no_nested_defs(f.node) if isinstance(c, ast.Call) and call_name(c) == "read_dict_from_file"]
+    if len(reads) != 1:
+        chk.undecided(rule, f.where(), "%d calls of read_dict_from_file in main()" % len(reads))
+        return
+    rd = reads[0]
+    bad = 0
+    scope = ctx.cg.reachable([f])
+    changers = {}          # function -> chdir call nodes
+    for g in scope:
+        for c in walk_no_nested_defs(g.node):
+            if isinstance(c, ast.Call) and call_name(c) in CWD_CHANGERS:
+                changers.setdefault(g, []).append(c)
+    for g, cs in changers.items():
+        if g is f:
+            sites = cs
+        else:
+            sites = [call for call, callees in ctx.cg.call_sites(f) if any(g in ctx.cg.reachable([h]) for h in callees)]
+        for site in sites:
+            s_stmt, r_stmt = cfg.stmt_of(site), cfg.stmt_of(rd)
+            reader_itself = g is not f and any(h.name == "read_dict_from_file" for _, hs in [(None, ctx.cg.resolve(site, f))] for h in hs) if isinstance(site, ast.Call) else False
+            if s_stmt is r_stmt and not reader_itself:
+                continue
+            if reader_itself or cfg.path_exists(s_stmt, r_stmt):
+                bad += 1
+                chk.violation(rule, f.where(site), "the working directory is changed (`%s` in %s) before the input file is read: a relative --file is resolved somewhere else, "
+                              "so another file than the one named may be solved and reported under this name" % (src(cs[0]), g.short),
+                              expected="read the file as named, before any chdir", found=src(cs[0]), construct="main chdir before read")
+            else:
+                chk.undecided(rule, f.where(site), "`%s` after the read: the place of the outputs/ folder depends on it" % src(cs[0]))
+    if not bad and not changers:
+        chk.ok(rule, f.where(rd), "nothing reachable from main() changes the working directory: the file read is the file named")
+
+
 def run(ctx, chk):
     r1234_writer(ctx, chk)
     r4_main(ctx, chk)
+    r6_same_file(ctx, chk)
+    r7_no_glued_chunks(ctx, chk)
     C11.r4_reader(ctx, chk, "C16.5")
     chk.require_instances("C16.1", 14)
     chk.require_instances("C16.4", 3)
